@@ -1198,3 +1198,56 @@ Example http_reset_example :
   = [HRequest 10; HConnect; HResponse 10; HResultW 10 true; HRequest 11; HResultW 11 false; HCloseW]
   /\ http_clean HClean [HRequest 11; HConnect; HResultW 11 false; HRequest 12] = false.
 Proof. vm_compute. split; reflexivity. Qed.
+
+(* ================================================================== *)
+(* 5. the reply inside a "connection lost" result                     *)
+
+Lemma lost_sources_own_gen : forall tr last,
+    wf_reads tr = true ->
+    (forall k, last = Some (k, E421) ->
+               match tr with [] => True | r :: _ => rd_kind r = RdLost /\ rd_msg r = k end) ->
+    forall m src, In (m, src) (lost_sources error_source last tr) -> src = None \/ src = Some m.
+Proof.
+  induction tr as [|r tr IH]; intros last Hwf Hinv m src HI; [destruct HI|].
+  cbn [wf_reads] in Hwf. apply andb_true_iff in Hwf. destruct Hwf as [Hadj Hwf].
+  cbn [lost_sources] in HI. destruct (rd_kind r) as [|c|] eqn:Ek.
+  - (* ok read: last unchanged; it cannot be a pending 421 *)
+    unfold upd_last in HI. rewrite Ek in HI. apply (IH last Hwf); [|exact HI].
+    intros k Hl. specialize (Hinv k Hl). destruct Hinv as [H1 _]. discriminate.
+  - (* error read *)
+    apply (IH (upd_last last r) Hwf); [|exact HI].
+    unfold upd_last. rewrite Ek. intros k Hl. inversion Hl; subst.
+    destruct tr as [|b tr']; [exact I|]. apply andb_true_iff in Hadj. destruct Hadj as [H1 H2].
+    unfold is_lost in H2. destruct (rd_kind b); try discriminate. split; [reflexivity | apply N.eqb_eq; exact H1].
+  - (* failed read: nothing follows *)
+    destruct tr as [|b tr']; [|discriminate Hadj].
+    destruct HI as [HI | []]. inversion HI; subst.
+    unfold error_source. destruct last as [[k [| |]]|]; try (left; reflexivity).
+    right. specialize (Hinv k eq_refl). cbn in Hinv. destruct Hinv as [_ ->]. reflexivity.
+Qed.
+
+(* the reply a lost-connection result is built from was issued during the SAME message's exchange,
+   or is synthetic *)
+Lemma lost_result_source_is_own : forall tr,
+    wf_reads tr = true ->
+    forall m src, In (m, src) (lost_sources error_source None tr) -> src = None \/ src = Some m.
+Proof. intros tr Hwf. apply (lost_sources_own_gen tr None Hwf). intros k H. discriminate. Qed.
+
+(* hypotheses satisfiable, and the own-421 case exists: recipient of message 1 answered 421, then
+   the connection is gone while message 1 is still in progress *)
+Example lost_source_example :
+  let tr := [mkRd 0 RdOk; mkRd 0 (RdErr E4xx); mkRd 0 RdOk; mkRd 0 RdOk;
+             mkRd 1 RdOk; mkRd 1 (RdErr E421); mkRd 1 RdLost] in
+  wf_reads tr = true /\ lost_sources error_source None tr = [(1, Some 1)].
+Proof. vm_compute. split; reflexivity. Qed.
+
+(* passing on ANY 4xx is wrong: message 0 had a recipient deferred (450) and was otherwise
+   accepted; message 1 loses the connection and would be failed with message 0's reply *)
+Lemma any_4xx_is_foreign :
+  exists tr, wf_reads tr = true /\
+             lost_sources error_source_any4xx None tr = [(1, Some 0)] /\
+             lost_sources error_source None tr = [(1, None)].
+Proof.
+  exists [mkRd 0 RdOk; mkRd 0 (RdErr E4xx); mkRd 0 RdOk; mkRd 0 RdOk; mkRd 0 RdOk; mkRd 1 RdLost].
+  vm_compute. repeat split.
+Qed.
